@@ -267,6 +267,27 @@ def rule_legal_src(ctx):
     ctx.check(none, "Info::new:no-result-yet", "a search starts with best_move = None and best_score = None", ib.where(0),
               bad_what="Info::new starts with best_move = `%s`, best_score = `%s`: a search cut short before its first iteration prints that move instead of falling back to a legal one"
               % (expr_str(start.get("best_move", ("?",)))[:50], expr_str(start.get("best_score", ("?",)))[:50]))
+    # the fall-back when no iteration completed: any legal move *of the root position* (self.board may be a move ahead: the
+    # root's abort path returns without taking its move back)
+    glm = []
+    wrong = []
+    for cb in [it] + ix.closures_of(C.ITER_DEEP):
+        csym = sym if cb is it else mir.Sym(cb, ix)
+        for bi, t in cb.calls():
+            if mir.callee_is(t, "board::Board::get_legal_moves"):
+                glm.append((bi, t))
+                recv = mir.strip_copies(mir.strip_refs(csym.operand(t["args"][0])))
+                if cb is not it:
+                    # what the closure captured: field k of its environment is operand k of the closure value built in iter_deep
+                    caps = [s2["rv"]["ops"] for _b2, _i2, s2 in it.stmts() if s2["rv"].get("k") == "agg" and s2["rv"].get("closure") == cb.key]
+                    for x in list(walk(recv)):
+                        if isinstance(x, tuple) and x[0] == "field" and mir.strip_refs(x[1])[0] == "arg" and x[-1].isdigit() and caps and int(x[-1]) < len(caps[0]):
+                            recv = mir.strip_copies(mir.strip_refs(sym.operand(caps[0][int(x[-1])])))
+                if not any(isinstance(x, tuple) and x[0] == "field" and x[-1] == "original_board" for x in walk(recv)) or any(
+                        isinstance(x, tuple) and x[0] == "field" and x[-1] == "board" for x in walk(recv)):
+                    wrong.append(expr_str(recv)[:60])
+    ctx.check(not wrong, "%s:fallback-from-the-root-position" % C.ITER_DEEP, "iter_deep takes its fall-back move from original_board.get_legal_moves() (%d site(s))" % len(glm), it.where(glm[0][0] if glm else 0),
+              bad_what="iter_deep asks `%s` for legal moves: not the root position (the walked board can be one move ahead after an aborted search, so this is a move of the other side)" % wrong)
     emits = c10.bestmove_emits(ix, it)
     ok_sources = 0
     seen = {}
